@@ -11,6 +11,7 @@ import copy
 import os
 import random
 import re
+import shutil
 
 from vf import core, tools
 from vf.gen import classgen as cg
@@ -29,6 +30,8 @@ TRAIT_LONG = {"abs": "abstract", "dc": "default_constructible", "cc": "copy_cons
               "poly": "polymorphic"}
 PF_FIELD = {"abs": "is_abstract", "dc": "is_default_constructible", "cc": "is_copy_constructible",
             "d": "is_destructible"}
+
+CLANG = shutil.which("clang++-14") or shutil.which("clang++")
 
 ORACLE_HEAD = r'''
 extern "C" int printf(const char *, ...);
@@ -82,6 +85,18 @@ def gxx_oracle(d, header_text, names, full):
     r = core.run([exe], timeout=20)
     if r.rc != 0:
         return None, set(), "oracle program failed: " + r.how()
+    second = None
+    second_bad = set()
+    if full and CLANG:
+        exe2 = os.path.join(d, "o2.exe")
+        r2 = core.run([CLANG, "-std=gnu++17", "-w", "-ferror-limit=0", "-o", exe2, "o.cxx"], cwd=d, timeout=180)
+        if r2.rc == 0:
+            r3 = core.run([exe2], timeout=20)
+            if r3.rc == 0:
+                second = {ln.split()[0]: ln.split()[1:] for ln in r3.out.splitlines() if ln.strip()}
+        else:
+            for ln in _err_lines(r2.err, "t.h"):
+                second_bad.add(ln)
     vals = {}
     for line in r.out.splitlines():
         p = line.split()
@@ -89,7 +104,19 @@ def gxx_oracle(d, header_text, names, full):
         e = dict(abs=v[0], dc=v[1], cc=v[2], d=v[3], poly=v[4], nd=v[5], nc=v[6])
         if full and v[7:12] != v[0:5]:
             e["disagree"] = True     # std:: traits and built-ins differ: no verdict for this class
+        if second is not None:
+            if second.get(p[0]) != p[1:]:
+                e["disagree"] = True  # g++ and clang differ: no verdict for this class
+        elif full:
+            e["single_reference"] = True
         vals[p[0]] = e
+    if second_bad:
+        lines = header_text.split("\n")
+        for ln in second_bad:
+            if 0 < ln <= len(lines):
+                m = re.match(r"(?:struct|class) (\w+)", lines[ln - 1])
+                if m and m.group(1) in vals:
+                    vals[m.group(1)]["disagree"] = True
     return vals, set(), None
 
 
@@ -493,7 +520,7 @@ def apply_op(model, op):
 VIEW_NEED = {"enum": "enum", "pf": "pf", "dbp": "dbp", "dbd": "dbd"}
 
 
-def minimise(judge, model, target, desc, budget=14):
+def minimise(judge, model, target, desc, budget=30):
     """greedy batched reduction of `model` keeping mismatch descriptor `desc` on class `target`."""
     need = {VIEW_NEED[desc[2]]}
     cur = cg.closure(model, target)
@@ -528,17 +555,23 @@ def minimise(judge, model, target, desc, budget=14):
         if len(good) == 1:
             cur = good[0][1]
             continue
-        # try all individually-good steps together
-        joint = cur
+        # cumulative application of the individually-good steps, all prefixes judged in one batch;
+        # take the longest prefix that still shows the disagreement
+        prefixes = []
+        acc = cur
         for op, _m in good:
-            j2 = apply_op(joint, op)
+            j2 = apply_op(acc, op)
             if j2 is not None:
-                joint = j2
-        res, _ = judge.judge([joint], need)
-        if persists(res[0], target):
-            cur = joint
-        else:
-            cur = good[0][1]
+                acc = j2
+                prefixes.append(acc)
+        variants = [rename_model(m2, f"_{i}") for i, m2 in enumerate(prefixes)]
+        res, _ = judge.judge(variants, need)
+        best = None
+        for i in range(len(prefixes) - 1, -1, -1):
+            if persists(res[i], f"{target}_{i}"):
+                best = prefixes[i]
+                break
+        cur = best if best is not None else good[0][1]
     return cur
 
 
@@ -574,11 +607,14 @@ def cause_of(cat, what, got, via, feats):
     if cat == "export-mismatch" and what == "copy-ctor" and under and via == "self" and len(feats) == 1 \
             and nonpub_dtor:
         return "own-dtor-inaccessible-suppresses-copy-ctor"
-    if ctorish and under and "base" in via and bare and bare <= VIRT and any("pure" in f for f in bare):
+    if ctorish and under and via != "self" and bare and bare <= VIRT and any("pure" in f for f in bare):
         return "abstract-base-makes-derived-unconstructible"
-    if "vbase" in bare and what in ("d", "dtor") and under and "dtor:delete" in bare:
+    if "vbase" in bare and what in ("d", "dtor") and under and nonpub_dtor:
         return "abstract-class-virtual-base-dtor"
-    if "vbase" in bare and ctorish and over:
+    if "vbase" in bare and bare <= VIRT | {"vbase"} and any("pure" in f for f in bare) and \
+            ((what == "abs" and got == 1) or (ctorish and under)):
+        return "virtual-base-final-overrider-ignored"
+    if "vbase" in bare and over:
         return "virtual-base-of-base-ignored"
     if "data:array-class" in bare and over and via != "self":
         return "array-member-subobject-ignored"
@@ -683,15 +719,21 @@ def run_case(ctx, case):
                 guard += 1
                 pref = sorted(pending, key=lambda ds: {"pf": 0, "enum": 1, "dbp": 2, "dbd": 3}[ds[2]])[0]
                 mm = minimise(judge, model, n, pref)
-                out2, _ = judge.judge([mm], {"enum", "pf", "dbp", "dbd"})
+                # the minimal witness is judged again by every view and by both reference compilers
+                out2, _ = judge.judge([mm], {"enum", "pf", "dbp", "dbd"}, full=True)
                 found = []
                 if out2[0] is not None:
                     mod2, tab2 = out2[0]
                     c2 = [x for x in mod2["classes"] if x["name"] == n]
                     if c2 and n in tab2:
+                        if tab2[n][0] is not None and tab2[n][0].get("disagree"):
+                            res.count("violations_dropped_references_disagree", len(pending))
+                            break
                         found = mismatches(c2[0], tab2[n][0], tab2[n][1])
                 if pref not in found:
-                    found.append(pref)
+                    res.count("violations_not_reproduced_on_minimal_witness")
+                    pending = [ds for ds in pending if ds != pref]
+                    continue
                 # fold views: one key per (category, what, got)
                 groups = {}
                 for ds in found:
@@ -717,7 +759,8 @@ def main(chk):
                 "a case is distinct by (set of member/base feature tags of the class => vector of g++ verdicts)")
     chk.assumptions = [
         "g++ 12 -std=gnu++17 is the authority for the five traits and for accessibility of constructors",
-        "std::is_* and the compiler built-ins must agree, otherwise the class is not judged",
+        "std::is_* and the compiler built-ins must agree, and clang++-14 (when installed) must print the same "
+        "values as g++ for a class, otherwise the class is not judged",
         "interrogate's judgement is observed through __is_* enumerators in the database, parse_file -p and the "
         "constructor/destructor lists of the database (-promiscuous and default visibility)",
         "only implicit (not user-declared) members are compared against the database lists, as the statement says",
